@@ -107,6 +107,8 @@ CHECKS = {
   "DESIGN.md §5 C20"),
 }
 
+RACE = {"C08", "C09", "C10", "C11", "C17", "C18", "C19"}
+
 NOT_BUILT_REASON = "check not built yet in this revision of /verif (planned, see DESIGN.md §5); nothing is claimed for it"
 
 def main():
@@ -115,6 +117,8 @@ def main():
     for pid in props:
         if pid in CHECKS:
             eng, tech, text, note, ref = CHECKS[pid]
+            if pid in RACE:
+                note += " A separate free-running pass of the same operations in a -race build guards the scheduler's assumption that every shared access goes through a hooked synchronisation operation (DESIGN.md, Changes F); a race report is a violation, the pass itself decides nothing."
             checks.append({
                 "property_id": pid,
                 "quick_cmd": f"./check {pid} quick",
